@@ -4,7 +4,7 @@
    from the freshly generated derived.gen.go. *)
 From Coq Require Import List NArith.
 Import ListNotations.
-From Verif Require Import Chan.Sem Chan.Expected Chan.Lemmas Chan.FmapProofs Chan.DupProofs Chan.JoinCC Chan.JoinCCLive Chan.JoinSl Chan.JoinSlLive Chan.Explore Chan.Bounded Chan.EnabledComplete Chan.Pipe Chan.PipeLive.
+From Verif Require Import Chan.Sem Chan.Expected Chan.Lemmas Chan.FmapProofs Chan.DupProofs Chan.JoinCC Chan.JoinCCLive Chan.JoinSl Chan.JoinSlLive Chan.Explore Chan.Bounded Chan.EnabledComplete Chan.Pipe Chan.PipeLive Chan.JoinVar Chan.JoinVarLive.
 
 (* ---------------- deriveFmap(f, <-chan) ---------------- *)
 Theorem C19_fmap_safety : forall (f : item -> item) xs cin cout s,
@@ -145,11 +145,41 @@ Theorem C19_joinsl_terminates : forall (f : item -> item) inputs cout l s,
 Proof. exact joinsl_terminates. Qed.
 Print Assumptions C19_joinsl_terminates.
 
-(* ---------------- NOT proved for all sizes: bounded statements only ---------------- *)
-(* variadic deriveJoin(c0, .., c(n-1)) (select loop): for n = 2 (0..2 items per input, capacities
-   0..1) and n = 3 (0..1 items, capacities 0..1) EVERY interleaving of the expected IR ends with
-   all goroutines halted, out closed, and an interleaving of all inputs delivered; no panic, no
-   deadlock, no cycle.  MISSING: the invariant proof for all item lists / capacities / n. *)
+(* ---------------- variadic deriveJoin(c0, .., c(n-1)) (select loop), ANY n >= 1 ---------------- *)
+(* JoinVar.PV inputs = [joinvar_main n] = fn_progs (exp_join_var n), n = length inputs (checked against
+   the translated IR for the generated n = 2, 3 on every run) *)
+Theorem C19_joinvar_safety : forall (f : item -> item) inputs cout s,
+  0 < length inputs ->
+  reach f (JoinVar.PV inputs) (joinvar_init inputs cout) s ->
+  panicked s = false
+  /\ (exists dls, length dls = length inputs
+        /\ Merge dls (cons_log s (S (length inputs)) ++ ch_buf s (length inputs)) /\
+        forall j cp its dl, nth_error inputs j = Some (cp, its) -> nth_error dls j = Some dl ->
+                            exists rest, its = dl ++ rest).
+Proof. exact joinvar_safety. Qed.
+Print Assumptions C19_joinvar_safety.
+
+Theorem C19_joinvar_measure_decreases : forall (f : item -> item) inputs cout s act s',
+  0 < length inputs ->
+  reach f (JoinVar.PV inputs) (joinvar_init inputs cout) s ->
+  step f (JoinVar.PV inputs) s act = Some s' ->
+  exists p p', s = JoinVar.mk inputs cout p /\ s' = JoinVar.mk inputs cout p'
+               /\ JoinVar.mu inputs p' < JoinVar.mu inputs p.
+Proof. exact joinvar_measure_decreases. Qed.
+Print Assumptions C19_joinvar_measure_decreases.
+
+Theorem C19_joinvar_terminates : forall (f : item -> item) inputs cout l s,
+  0 < length inputs ->
+  run f (JoinVar.PV inputs) (joinvar_init inputs cout) l = Some s ->
+  length l <= JoinVar.mu inputs (init_params inputs).
+Proof. exact joinvar_terminates. Qed.
+Print Assumptions C19_joinvar_terminates.
+
+(* STILL PARTIAL for the variadic form: deadlock freedom / no leak / "closed only after all inputs are
+   nil and everything is delivered" are established only by exhaustive exploration (n = 2: 0..2 items
+   per input, capacities 0..1; n = 3: 0..1 items).  MISSING: the progress lemma and the final-state
+   lemma over the invariant JoinVar.Cond (which already records, at LClose/LHalt, that every input is
+   nil, hence closed and drained). *)
 Theorem C19_joinvar_bounded_partial :
   no_violation (search_all KJoinVar (exp_join_var 2) joinvar_configs2 2000 0%N 0%N) = true
   /\ no_violation (search_all KJoinVar (exp_join_var 3) joinvar_configs3 2000 0%N 0%N) = true.
